@@ -37,10 +37,10 @@ OpRets(sc) ==
      [path |-> IF op.o = "lockw" THEN "guard" ELSE "get_mut", pos |-> op.pos, id |-> v[op.pos].id, val |-> v[op.pos].val]]
 DtorRets(sc) ==
   LET v == ValsAfter(sc, Len(sc.ops)) IN
-  IF sc.dtor = "drop" \/ sc.ctor = "reject" THEN <<>>
+  IF sc.dtor = "drop" \/ sc.ctor \in {"reject", "zst"} THEN <<>>
   ELSE [i \in 1..Len(v) |-> [path |-> sc.dtor, pos |-> i, id |-> v[i].id, val |-> v[i].val]]
 ExpectedRets(sc) == OpRets(sc) \o DtorRets(sc)
-AllIds(sc) == IF sc.ctor = "reject" THEN {1, 2} ELSE 1..Len(ValsAfter(sc, Len(sc.ops)))
+AllIds(sc) == IF sc.ctor = "reject" THEN {1, 2} ELSE IF sc.ctor = "zst" THEN {1} ELSE 1..Len(ValsAfter(sc, Len(sc.ops)))
 
 (***************************************************************************)
 (* The scenario family                                                     *)
@@ -75,4 +75,7 @@ Scenarios(kinds, maxn, maxops) ==
       : n \in Sizes(sh, maxn)} : sh \in Shapes(kd)} : kd \in kinds}
   \cup {[kind |-> kd, shape |-> "mixed", n |-> 2, ctor |-> "reject", ops |-> <<>>, dtor |-> "drop"] :
           kd \in kinds \cap {"boxed", "retry"}}
+  \* an empty (zero-sized) owned collection next to a lock: duplicate-free, must be accepted (C07)
+  \cup {[kind |-> kd, shape |-> "zst", n |-> 1, ctor |-> "zst", ops |-> <<>>, dtor |-> "drop"] :
+          kd \in (kinds \cap {"boxed", "retry"}) \cup {"ref"}}
 =============================================================================
